@@ -453,7 +453,7 @@ func modelKey(m *Model) string {
 		pr = append(pr, id)
 	}
 	sort.Strings(pr)
-	return strings.Join(parts, "\n") + "\n--" + strings.Join(pr, ",")
+	return strings.Join(parts, "\n") + "\n--" + strings.Join(pr, ",") + fmt.Sprint(m.NoStore)
 }
 
 type linIn struct {
@@ -830,6 +830,17 @@ func genBatch(prop string, g *Gen, m *Model, rng *SplitMix) []Cmd {
 			cmds = append(cmds, Cmd{Op: "compact"})
 		}
 	case "C18":
+		if m.NoStore {
+			// a brand-new project: init and the first creations arrive together
+			cmds = []Cmd{{Op: "init"}, {Op: "new_task", Title: sp(g.text("title"))}}
+			if rng.Chance(1, 2) {
+				cmds = append(cmds, Cmd{Op: "new_epic", Title: sp(g.text("title"))})
+			}
+			if rng.Chance(1, 3) {
+				cmds = append(cmds, Cmd{Op: "init"})
+			}
+			break
+		}
 		// several commands arrive at a store whose lock file is missing
 		n := 2 + rng.Intn(2)
 		for i := 0; i < n; i++ {
@@ -940,7 +951,7 @@ func runConcSample(bin, prop string, seed uint64, thorough bool) *RunReport {
 		sc.Config.Layout = "legacy" // a store that still uses events.jsonl
 	}
 	if prop == "C18" {
-		sc.Config.Layout = []string{"legacy", "legacy", "both", "", "nested", "legacy+nested"}[rng.Intn(6)]
+		sc.Config.Layout = []string{"legacy", "legacy", "both", "", "nested", "legacy+nested", "fresh", "fresh"}[rng.Intn(8)]
 	}
 	if prop == "C13" || prop == "C02" {
 		if rng.Chance(1, 2) {
@@ -962,6 +973,9 @@ func runConcSample(bin, prop string, seed uint64, thorough bool) *RunReport {
 		}
 	}
 	nsetup := 4 + rng.Intn(10)
+	if r.M.NoStore {
+		nsetup = 0
+	}
 	for i := 0; i < nsetup; i++ {
 		st := g.Next(r.M)
 		sc.Steps = append(sc.Steps, st)
@@ -984,7 +998,7 @@ func runConcSample(bin, prop string, seed uint64, thorough bool) *RunReport {
 			r.ExecStep(st)
 		}
 	}
-	if prop == "C18" && rng.Chance(1, 2) {
+	if prop == "C18" && !r.M.NoStore && rng.Chance(1, 2) {
 		st := Step{Disk: &DiskOp{Kind: "lock_missing"}}
 		sc.Steps = append(sc.Steps, st)
 		r.ExecStep(st)
